@@ -52,6 +52,9 @@ ASSUMPTIONS = [
     "'same numbers' = same column values after sorting rows by (frame, particle, positions, all "
     "columns), index layout ignored for trajectory tables; for the derived tables (drift, msd, "
     "proximity, relate_frames) index values and column values, names ignored; tolerance 1e-9 rel.",
+    "pipeline tables carry a generic position offset < 1e-3 so that linking optima are unique; if "
+    "link outputs still differ only in the partition, both runs are repeated 3x and a common "
+    "partition counts as agreement (counter link_tie_nondeterministic)",
     "a stage that raises on the plain default-indexed table as well (degenerate data: empty table, "
     "one-row trajectories) is not counted against the layout; the chain stops there",
     "filter sizes are k/4 and cuts k/8 or exact group means, so the float mean is compared with the "
@@ -76,12 +79,15 @@ LEAN_PROD = {"link": ".link", "link_partial": ".linkPartial", "filter_stubs": ".
              "filter_clusters": ".filterClusters", "subtract_drift": ".subtractDrift"}
 
 _TP = {}
+_CACHE = {}
 
 
 def init(ctx):
     _TP["tp"] = common.setup_repo_path()
     import pandas as pd
     _TP["pd"] = pd
+    import multiprocessing
+    _CACHE["worker"] = multiprocessing.current_process().name != "MainProcess"
 
 
 def tp():
@@ -95,8 +101,11 @@ def pd():
 # ------------------------------------------------------------------------------------------
 # tables and layouts
 
-def gen_rows(rng, npart=None, nframes=None, dup=False, close=False):
-    """random trajectory table as a list of dict rows (dyadic numbers, gaps, entering/leaving)"""
+def gen_rows(rng, npart=None, nframes=None, dup=False, close=False, jitter=False):
+    """random trajectory table as a list of dict rows (dyadic numbers, gaps, entering/leaving).
+    jitter: positions get a generic offset < 1e-3 so that two different assignments of a linking
+    step never have equal cost (link's choice among tied optima is legitimately not unique and
+    differs from run to run on the same table - see canon_partition)"""
     npart = npart or rng.randint(1, 6)
     nframes = nframes or rng.randint(2, 12)
     f0 = rng.choice([0, 0, 0, 1, 5])
@@ -114,7 +123,8 @@ def gen_rows(rng, npart=None, nframes=None, dup=False, close=False):
             y += rng.randint(-4, 6) / 8.0
             if b - a >= 2 and a < f < b and rng.random() < 0.15:
                 continue                                        # gap
-            rows.append(dict(x=x, y=y, frame=f0 + f, particle=p,
+            jx, jy = (rng.random() * 1e-3, rng.random() * 1e-3) if jitter else (0.0, 0.0)
+            rows.append(dict(x=x + jx, y=y + jy, frame=f0 + f, particle=p,
                              size=size + rng.randint(-2, 2) / 4.0,
                              mass=float(rng.randint(50, 400))))
     if not rows:
@@ -371,6 +381,28 @@ def same_numbers(a, b, tol=1e-9):
     return True
 
 
+def link_tie_recheck(stage, t, par, out, plain_out):
+    """link outputs differ as partitions: a layout effect, or link choosing differently among
+    equal-cost assignments (set iteration order of Point objects; happens on identical inputs)?
+    Everything but the labels must agree; then the stage is re-run 3x on both tables: if some
+    indexed run and some plain run give the same partition it is the tie nondeterminism."""
+    drop = lambda d: d.drop(columns=["particle"])
+    if not same_numbers(canon_traj(drop(out)), canon_traj(drop(plain_out))):
+        return False, False
+    a, b = [canon_partition(out)], [canon_partition(plain_out)]
+    for _ in range(3):
+        r1, r2 = try_stage(stage, t, par), try_stage(stage, t.reset_index(drop=True), par)
+        if r1[0] != "ok" or r2[0] != "ok":
+            return False, False
+        a.append(canon_partition(r1[1]))
+        b.append(canon_partition(r2[1]))
+    for x in a:
+        for y in b:
+            if same_numbers(x, y):
+                return True, True
+    return False, False
+
+
 def observe(stage, t, par):
     """run `stage` on table t and on the same data in a plain default-indexed table.
     returns dict(status = ok | rejects | differs | degenerate, out=table or None, layout, error)"""
@@ -384,6 +416,11 @@ def observe(stage, t, par):
     out = got[1]
     lay = classify(out) if stage in PRODUCERS else None
     same = same_numbers(canon_out(stage, out), canon_out(stage, plain[1]))
+    tie = False
+    if not same and stage in ("link", "link_partial"):
+        same, tie = link_tie_recheck(stage, t, par, out, plain[1])
+    if tie:
+        return dict(status="ok", out=out, layout=lay, error=None, tie=True)
     return dict(status="ok" if same else "differs", out=out, layout=lay,
                 error=None if same else "numbers-differ")
 
@@ -397,10 +434,10 @@ def representative_rows():
     reps = []
     for k in range(4):
         rng = random.Random("C20-representative-%d" % k)
-        rows = gen_rows(rng, npart=3 + k % 3, nframes=6 + 2 * k, close=(k == 3))
+        rows = gen_rows(rng, npart=3 + k % 3, nframes=6 + 2 * k, close=(k == 3), jitter=True)
         reps.append(rows)
     # a single trajectory without gaps: every frame number occurs once (unique 'frame' index)
-    reps.append([dict(x=1.0 + 0.25 * f, y=2.0 + 0.5 * (f % 3), frame=f, particle=4, size=3.0,
+    reps.append([dict(x=1.0 + 0.2501 * f, y=2.0 + 0.5003 * (f % 3), frame=f, particle=4, size=3.0,
                       mass=100.0 + f) for f in range(7)])
     return reps
 
@@ -432,7 +469,10 @@ def measure_table():
                     if got[0] == "err":
                         errs.append(got[1])
                         continue
-                    sames.append(same_numbers(canon_out(st, got[1]), plain[(st, k)][1]))
+                    sm = same_numbers(canon_out(st, got[1]), plain[(st, k)][1])
+                    if not sm and st in ("link", "link_partial"):
+                        sm = observe(st, t, par)["status"] == "ok"
+                    sames.append(sm)
                     if st in PRODUCERS:
                         outs.append(classify(got[1]))
             table["%s|%s" % (st, lay)] = dict(
@@ -554,9 +594,6 @@ def known_excl():
     return out
 
 
-_CACHE = {}
-
-
 def cache_path(pid):
     return os.path.join(tempfile.gettempdir(), "verif-C20-table-%d-%d.json" % (os.getuid(), pid))
 
@@ -565,17 +602,18 @@ def live_table():
     """the measured table: from the parent's cache (written by gen_cases) or measured here"""
     if "table" in _CACHE:
         return _CACHE["table"]
-    for pid in (os.getpid(), os.getppid()):
-        p = cache_path(pid)
-        if os.path.exists(p):
-            try:
-                with open(p) as f:
-                    rec = json.load(f)
-                if rec.get("repo") == os.path.realpath(common.REPO):
-                    _CACHE["table"] = rec["table"]
-                    return _CACHE["table"]
-            except Exception:
-                pass
+    # a pool worker: the parent (gen_cases) measured the table at the start of THIS run and wrote
+    # it under its own pid before yielding any case; anything else (replay, single process) measures
+    p = cache_path(os.getppid())
+    if _CACHE.get("worker") and os.path.exists(p):
+        try:
+            with open(p) as f:
+                rec = json.load(f)
+            if rec.get("repo") == os.path.realpath(common.REPO):
+                _CACHE["table"] = rec["table"]
+                return _CACHE["table"]
+        except Exception:
+            pass
     _CACHE["table"] = measure_table()
     return _CACHE["table"]
 
@@ -612,7 +650,7 @@ def gen_filter(rng, i):
 def gen_pipeline(rng, depth_max):
     depth = rng.randint(1, depth_max)
     chain = [rng.choice(PRODUCERS) for _ in range(depth)]
-    rows = gen_rows(rng, close=rng.random() < 0.3, dup=False)
+    rows = gen_rows(rng, close=rng.random() < 0.3, dup=False, jitter=True)
     par = dict(search_range=rng.choice([2.0, 3.0, 5.0]), memory=rng.choice([0, 0, 1, 2]),
                link_range=[rng.randint(0, 2), rng.randint(2, 6)], stub_thr=rng.choice([1, 2, 3, 4]),
                cut=rng.choice([None, None, 3.5, 5.0, 100.0]), quantile=rng.choice([0.5, 0.8, 1.0]),
@@ -628,20 +666,21 @@ def gen_cases(ctx):
         init(ctx)
     path = cache_path(os.getpid())
     table = measure_table()
+    _CACHE["table"] = table                                       # single-process runs
     with open(path, "w") as f:
         json.dump(dict(repo=os.path.realpath(common.REPO), table=table), f)
     try:
         yield dict(stream="table")
         for inp in ctx.corpus():
             yield inp
-        for i in range(ctx.n(400, 6000)):
+        for i in range(ctx.n(400, 4000)):
             yield gen_filter(ctx.rng("filter", i), i)
         if ctx.thorough:
-            # every producer chain of depth <= 3 on 20 tables, initial layouts in rotation
+            # every producer chain of depth <= 3 on 10 tables, initial layouts in rotation
             k = 0
             for depth in (1, 2, 3):
                 for chain in itertools.product(PRODUCERS, repeat=depth):
-                    for j in range(20):
+                    for j in range(10):
                         rng = ctx.rng("exh", k)
                         inp = gen_pipeline(rng, 1)
                         inp["chain"] = list(chain)
@@ -650,7 +689,7 @@ def gen_cases(ctx):
                         inp["family"] = "exh3"
                         k += 1
                         yield inp
-        for i in range(ctx.n(300, 5000)):
+        for i in range(ctx.n(300, 3000)):
             yield gen_pipeline(ctx.rng("pipeline", i), 6 if ctx.thorough else 4)
     finally:
         try:
@@ -702,8 +741,8 @@ def run_table_case(ctx, inp):
     # the regenerated obligation, checked by the kernel
     ok, out = check_lean(lean_file(table, init_l, excl))
     res.stat("lean_obligation_ok" if ok else "lean_obligation_failed")
-    if not ok and "liveClosed" not in out and "kernel" not in out and "decide" not in out:
-        raise RuntimeError("generated Lean file did not elaborate:\n" + out)
+    if not ok and "tableClosedExcept liveTable liveInit liveExcl" not in out:
+        raise RuntimeError("generated Lean file did not elaborate:\n" + out)   # infrastructure
     # the model's own evaluation (native driver, same definitions)
     m = common.kv(ctx.ask(driver_line(table, init_l, excl)))
     reach_model = sorted(m.get("reach", "").split(";")) if m.get("reach") else []
@@ -950,6 +989,8 @@ def run_pipeline_case(ctx, inp):
                     signature=dict(stream="pipeline", what="abstraction", stage=stage,
                                    layout=lay_in))
         elif ob["status"] == "ok":
+            if ob.get("tie"):
+                res.stat("link_tie_nondeterministic")
             if not entry_good(ent):
                 res.stat("abstraction_pessimistic")
             elif ob["layout"] is not None and ob["layout"] not in ent["outs"]:
